@@ -285,7 +285,7 @@ theorem no_forged_forwarding {e : Env} {r : Req} {path : Str} {hd : Hdrs} (h : s
 
 /-- **peer_address_hostport**: for the `host:port` form in which `net/http` reports an IPv4 peer (no
 colon or bracket inside host or port) the address that `client_ip_header` puts into the header is
-exactly `host`.  (The bracketed IPv6 form is covered by the differential run, not by a theorem.) -/
+exactly `host`.  (The bracketed IPv6 form is `splitHost_bracketed` below.) -/
 theorem splitHost_hostport {ip port : Str} (h1 : ':' ∉ ip) (h2 : '[' ∉ ip) (h3 : ']' ∉ ip)
     (p1 : ':' ∉ port) (p2 : '[' ∉ port) (p3 : ']' ∉ port) : splitHost (ip ++ ':' :: port) = some ip := by
   have hl := lastIdx_append ':' ip port p1
@@ -317,6 +317,220 @@ theorem forwards_only_api_with_real_address {e : Env} {r : Req} {path : Str} {hd
     (∀ n ∈ forwardingNames, vals n hd = []) := by
   obtain ⟨hs, rel, h1, h2, h3, _⟩ := backend_only_for_api h
   exact ⟨hs, ⟨rel, h1, h2, h3⟩, client_ip_header h, no_forged_forwarding h⟩
+
+/-! ### deepening: independent statements, peer address forms, base path, wire level -/
+
+/-- **not_api_answered_locally**: stated with the documented shapes only (no reference to
+`shouldProxy`): a request that has none of the four shapes is answered locally, with the robots file
+exactly for `/robots.txt` and 404 otherwise. -/
+theorem not_api_answered_locally (e : Env) (r : Req) (h : ¬ Shape r.method (trimSlash r.path)) :
+    (r.path = robotsPath → serve e r = .robots) ∧ (r.path ≠ robotsPath → serve e r = .notFound) := by
+  have hs : shouldProxy r.method r.path = false := by
+    cases hb : shouldProxy r.method r.path with
+    | false => rfl
+    | true => exact absurd ((shouldProxy_iff _ _).mp hb) h
+  have := else_local_404 e r hs
+  constructor
+  · intro hp; rw [this, if_pos hp]
+  · intro hp; rw [this, if_neg hp]
+
+/-- the robots path itself is never an API request, for any method. -/
+theorem robots_not_api (m : Str) : ¬ Shape m (trimSlash robotsPath) := by
+  intro h
+  have := (shouldProxy_iff m robotsPath).mpr h
+  have hf : ∀ m, shouldProxy m robotsPath = false := by
+    intro m
+    unfold shouldProxy shouldProxyV
+    have : (splitN 5 (trimSlash robotsPath)).length = 1 := by decide
+    simp [this]
+  rw [hf] at this
+  exact absurd this (by simp)
+
+/-- **backend_iff_api**: the backend is contacted exactly for the four documented shapes coming
+from a peer whose address has a host part. -/
+theorem backend_iff_api (e : Env) (r : Req) :
+    (∃ path hd, serve e r = .proxied path hd) ↔
+      (Shape r.method (trimSlash r.path) ∧ ∃ ip, splitHost r.remote = some ip) := by
+  constructor
+  · rintro ⟨path, hd, h⟩
+    obtain ⟨hs, _, ip, hip, _⟩ := serve_proxied_inv h
+    exact ⟨(shouldProxy_iff _ _).mp hs, ip, hip⟩
+  · rintro ⟨hs, ip, hip⟩
+    have hs' : shouldProxyV .fixed r.method r.path = true := (shouldProxy_iff _ _).mpr hs
+    simp [serve, serveV, hs', hip]
+
+/-- **bad_peer_not_forwarded**: without a usable peer address nothing reaches the backend. -/
+theorem bad_peer_not_forwarded (e : Env) (r : Req) (h : splitHost r.remote = none) :
+    ∀ path hd, serve e r ≠ .proxied path hd := by
+  intro path hd hp
+  obtain ⟨_, _, ip, hip, _⟩ := serve_proxied_inv hp
+  rw [h] at hip
+  exact absurd hip (by simp)
+
+/-- What the backend can use to identify the client: the client-IP header and the seven forwarding
+headers. -/
+def identityHeaders (hd : Hdrs) : List (List Str) := (hXConnectingIP :: forwardingNames).map (vals · hd)
+
+/-- **client_cannot_choose_address** (non-interference): the identity headers of a forwarded request
+are a function of the peer address alone — two requests from the same peer that differ arbitrarily
+in method, path, header set (forged values, `Connection` tokens, …), target and request ID are
+forwarded with identical identity headers, namely the peer's address and nothing else. -/
+theorem client_cannot_choose_address {e e' : Env} {r r' : Req} {path path' : Str} {hd hd' : Hdrs}
+    (hr : r.remote = r'.remote) (h : serve e r = .proxied path hd) (h' : serve e' r' = .proxied path' hd') :
+    identityHeaders hd = identityHeaders hd' ∧
+    ∃ ip, splitHost r.remote = some ip ∧ identityHeaders hd = [ip] :: forwardingNames.map (fun _ => []) := by
+  obtain ⟨ip, hip, hv⟩ := client_ip_header h
+  obtain ⟨ip', hip', hv'⟩ := client_ip_header h'
+  have hf := no_forged_forwarding h
+  have hf' := no_forged_forwarding h'
+  rw [← hr, hip] at hip'
+  have hii : ip' = ip := by simpa using hip'.symm
+  have e1 : identityHeaders hd = [ip] :: forwardingNames.map (fun _ => []) := by
+    unfold identityHeaders
+    rw [List.map_cons, hv]
+    congr 1
+    exact List.map_congr_left (fun n hn => hf n hn)
+  have e2 : identityHeaders hd' = [ip] :: forwardingNames.map (fun _ => []) := by
+    unfold identityHeaders
+    rw [List.map_cons, hv', hii]
+    congr 1
+    exact List.map_congr_left (fun n hn => hf' n hn)
+  exact ⟨by rw [e1, e2], ip, hip, e1⟩
+
+/-- the `[host]:port` form in which `net/http` reports an IPv6 peer (zone included in `ip`). -/
+theorem splitHost_bracketed {ip port : Str} (h2 : '[' ∉ ip) (h3 : ']' ∉ ip)
+    (p1 : ':' ∉ port) (p2 : '[' ∉ port) (p3 : ']' ∉ port) :
+    splitHost ('[' :: (ip ++ ']' :: ':' :: port)) = some ip := by
+  have hl : lastIdx ':' ('[' :: (ip ++ ']' :: ':' :: port)) = some (ip.length + 2) := by
+    have := lastIdx_append ':' ('[' :: (ip ++ [']'])) port p1
+    simpa using this
+  have hf : firstIdx ']' ('[' :: (ip ++ ']' :: ':' :: port)) = some (ip.length + 1) := by
+    have := firstIdx_append ']' ('[' :: ip) (':' :: port) (by simp [h3])
+    simpa using this
+  have hp : splitHostPort ('[' :: (ip ++ ']' :: ':' :: port)) = .ok ip := by
+    unfold splitHostPort
+    rw [hl]
+    simp only [hf]
+    have hlen : ¬ (ip.length + 1 + 1 = ('[' :: (ip ++ ']' :: ':' :: port)).length) := by
+      simp
+    rw [if_neg hlen]
+    have hd : List.drop (ip.length + 1 + 1) ('[' :: (ip ++ ']' :: ':' :: port)) = ':' :: port := by
+      simp [List.drop_append]
+    have ht : List.take (ip.length + 1) ('[' :: (ip ++ ']' :: ':' :: port)) = '[' :: ip := by
+      simp
+    simp [hd, ht, h2, p2, p3]
+  simp [splitHost, hp]
+
+/-- The two forms of `http.Request.RemoteAddr` that `net/http` produces for a TCP peer. -/
+inductive PeerAddr : Str → Str → Prop
+  | v4 (ip port : Str) : ':' ∉ ip → '[' ∉ ip → ']' ∉ ip → ':' ∉ port → '[' ∉ port → ']' ∉ port →
+      PeerAddr (ip ++ ':' :: port) ip
+  | v6 (ip port : Str) : '[' ∉ ip → ']' ∉ ip → ':' ∉ port → '[' ∉ port → ']' ∉ port →
+      PeerAddr ('[' :: (ip ++ ']' :: ':' :: port)) ip
+
+/-- **client_ip_is_peer_ip**: for both forms of a TCP peer address the forwarded client-IP header is
+exactly the peer's IP (no port, no brackets), and the request is never refused with 500. -/
+theorem client_ip_is_peer_ip {e : Env} {r : Req} {ip : Str} (hp : PeerAddr r.remote ip)
+    (hs : Shape r.method (trimSlash r.path)) :
+    ∃ path hd, serve e r = .proxied path hd ∧ vals hXConnectingIP hd = [ip] := by
+  have hgen : ∀ rem, PeerAddr rem ip → splitHost rem = some ip := by
+    intro rem hp
+    cases hp with
+    | v4 _ port a b c d e f => exact splitHost_hostport a b c d e f
+    | v6 _ port a b c d e => exact splitHost_bracketed a b c d e
+  have hip : splitHost r.remote = some ip := hgen _ hp
+  obtain ⟨path, hd, h⟩ := (backend_iff_api e r).mpr ⟨hs, ip, hip⟩
+  obtain ⟨ip', hip', hv⟩ := client_ip_header h
+  rw [hip] at hip'
+  have : ip' = ip := by simpa using hip'.symm
+  exact ⟨path, hd, h, by rw [hv, this]⟩
+
+/-! #### the configured base path -/
+
+/-- a target base path free of dot segments: empty, or absolute with no `.`/`..` segment. -/
+def CleanBase (base : Str) : Prop := base = [] ∨ ∃ b, base = '/' :: b ∧ (split b).any isDot = false
+
+theorem any_isDot_append_slash {a q : Str} (ha : (split a).any isDot = false) (hq : (split q).any isDot = false) :
+    (split (a ++ '/' :: q)).any isDot = false := by
+  rw [split_append, List.any_append, ha, hq]; rfl
+
+theorem stripEnd_clean {b : Str} (hb : (split b).any isDot = false) : (split (stripEnd b)).any isDot = false := by
+  cases he : endsSlash b with
+  | false => rw [stripEnd_of_not_endsSlash b he]; exact hb
+  | true =>
+    have := stripEnd_of_endsSlash b he
+    rw [this] at hb
+    have hx : stripEnd b ++ ['/'] = stripEnd b ++ '/' :: [] := rfl
+    rw [hx, split_append, List.any_append] at hb
+    simp only [Bool.or_eq_false_iff] at hb
+    exact hb.1
+
+/-- **backend_path_normalised**: with a dot-free base path the *whole* path sent to the backend is a
+fixed point of RFC 3986 dot-segment removal — normalisation cannot move it anywhere. -/
+theorem backend_path_normalised {base m p : Str} (hb : CleanBase base) (h : shouldProxy m p = true) :
+    normalize (joinPath base p) = joinPath base p := by
+  have hq := (shouldProxy_parts h).2.1
+  rw [joinPath_eq]
+  rcases hb with rfl | ⟨b, rfl, hb⟩
+  · simp only [stripEnd, List.nil_append]
+    exact normalize_nodot _ hq
+  · cases b with
+    | nil =>
+      simp only [stripEnd, if_true, List.nil_append]
+      exact normalize_nodot _ hq
+    | cons c r =>
+      have hse : stripEnd ('/' :: c :: r) = '/' :: stripEnd (c :: r) := by simp [stripEnd]
+      rw [hse, List.cons_append]
+      exact normalize_nodot _ (any_isDot_append_slash (stripEnd_clean hb) hq)
+
+/-! #### the request target as it is on the wire -/
+
+/-- **wire_segments_dot_free**: for every origin-form request target that `net/http` accepts and the
+proxy forwards, every raw `/`-separated segment of the target's path (the bytes the backend receives
+when the client's escaping is kept) percent-decodes, and its decoding neither is a dot segment nor
+contains one — so a backend that decodes before or after normalising stays under the prefix too. -/
+theorem wire_segments_dot_free {m t p : Str} (ht : parseTarget ('/' :: t) = some p)
+    (h : shouldProxy m p = true) :
+    ∀ s ∈ split (rawPath t), ∃ d, unescape s = some d ∧ (∀ x ∈ split d, Seg x) ∧ d ≠ sDot ∧ d ≠ sDotDot := by
+  unfold parseTarget at ht
+  split at ht
+  · exact absurd ht (by simp)
+  · have hrp : rawPath ('/' :: t) = '/' :: rawPath t := by simp [rawPath, List.takeWhile]
+    rw [hrp, unescape_cons_noPct (by decide)] at ht
+    cases hd : unescape (rawPath t) with
+    | none => simp [hd] at ht
+    | some d0 =>
+      simp [hd] at ht
+      subst ht
+      have hseg := parts_seg (shouldProxy_parts h).2.1
+      simp only [trimSlash] at hseg
+      intro s hs
+      obtain ⟨d, h1, h2⟩ := raw_segments_decode (rawPath t).length (rawPath t) d0 (Nat.le_refl _) hd s hs
+      have hall : ∀ x ∈ split d, Seg x := fun x hx => hseg x (h2 x hx)
+      refine ⟨d, h1, hall, ?_, ?_⟩
+      · intro hdot
+        have : sDot ∈ split d := by rw [hdot]; decide
+        exact (hall _ this).2.1 rfl
+      · intro hdot
+        have : sDotDot ∈ split d := by rw [hdot]; decide
+        exact (hall _ this).2.2 rfl
+
+/-- **C19 on the wire**: for every method, origin-form request target, peer address and header set:
+if `net/http` accepts the target and the backend is contacted, then the decoded path has one of the
+four shapes, no raw segment of the target decodes to (or contains) a dot segment, the backend path
+is normalised under the prefix, the client-IP header is the peer's address and no forwarding header
+survives. -/
+theorem wire_forwards_only_api_with_real_address {e : Env} {m t p remote : Str} {hs : Hdrs} {path : Str}
+    {hd : Hdrs} (ht : parseTarget ('/' :: t) = some p)
+    (h : serve e { method := m, path := p, remote := remote, hdrs := hs } = .proxied path hd) :
+    Shape m (trimSlash p) ∧
+    (∀ s ∈ split (rawPath t), ∃ d, unescape s = some d ∧ (∀ x ∈ split d, Seg x) ∧ d ≠ sDot ∧ d ≠ sDotDot) ∧
+    (∃ rel, path = stripEnd e.base ++ rel ∧ normalize rel = rel ∧ underPrefix rel = true) ∧
+    (∃ ip, splitHost remote = some ip ∧ vals hXConnectingIP hd = [ip]) ∧
+    (∀ n ∈ forwardingNames, vals n hd = []) := by
+  obtain ⟨h1, h2, h3, h4⟩ := forwards_only_api_with_real_address h
+  have hsp : shouldProxy m p = true := (shouldProxy_iff m p).mpr h1
+  exact ⟨h1, wire_segments_dot_free ht hsp, h2, h3, h4⟩
 
 /-! ### the pinned tree violated the property (counter-examples, replayed by the harness) -/
 
@@ -386,6 +600,36 @@ example : serve cxEnv { cxReq with remote := ['[', ':', ':', '1'] } = .err500 :=
 example : normalize ['/', 'a', '/', 'b', '/', '.', '.', '/', '.', '/', 'c'] = ['/', 'a', '/', 'c'] := by
   simp [normalize, split, normSegs, join, sDot, sDotDot]
 
+-- deepening: both peer-address forms, a clean base path, and the wire-level parser are inhabited.
+example : PeerAddr ['[', ':', ':', '1', ']', ':', '8', '0'] [':', ':', '1'] :=
+  PeerAddr.v6 [':', ':', '1'] ['8', '0'] (by decide) (by decide) (by decide) (by decide) (by decide)
+example : PeerAddr ['1', '.', '2', '.', '3', '.', '4', ':', '5'] ['1', '.', '2', '.', '3', '.', '4'] :=
+  PeerAddr.v4 ['1', '.', '2', '.', '3', '.', '4'] ['5'] (by decide) (by decide) (by decide) (by decide)
+    (by decide) (by decide)
+example : CleanBase ['/', 'v', '1', '/'] := Or.inr ⟨['v', '1', '/'], rfl, by decide⟩
+example : ¬ CleanBase ['/', 'a', '/', '.', '.'] := by
+  intro h
+  rcases h with h | ⟨b, hb, hd⟩
+  · exact absurd h (by decide)
+  · have : b = ['a', '/', '.', '.'] := by simpa using hb.symm
+    subst this
+    exact absurd hd (by decide)
+-- `/linkip/a%2Eb/c?x=/../` is accepted by net/http, decodes to `/linkip/a.b/c`, and is forwarded …
+example : parseTarget "/linkip/a%2Eb/c?x=/../".toList = some "/linkip/a.b/c".toList := by decide
+example : shouldProxy mGET "/linkip/a.b/c".toList = true := by decide
+-- … `/linkip/%2e%2e/x` decodes to a dot segment and is refused; a malformed escape never reaches the handler.
+example : parseTarget "/linkip/%2e%2E/x".toList = some "/linkip/../x".toList := by decide
+example : shouldProxy mGET "/linkip/../x".toList = false := by decide
+example : parseTarget "/linkip/%2/x".toList = none := by decide
+example : parseTarget "/linkip/a b/x".toList = none := by decide
+-- the identity headers of the witness request with forged headers are the peer address and nothing else.
+def idOf : Resp → Option (List (List Str))
+  | .proxied _ hd => some (identityHeaders hd)
+  | _ => none
+example : idOf (serve cxEnv { cxReq with hdrs := (hXConnectingIP, ['6']) :: (hXRealIP, ['6']) ::
+      (hXForwardedFor, ['6']) :: (hCFConnectingIP, ['6']) :: cxReq.hdrs })
+    = some [[['1', '.', '2', '.', '3', '.', '4']], [], [], [], [], [], [], []] := by decide
+
 end Agd.LinkIP
 
 #print axioms Agd.LinkIP.shouldProxy_iff
@@ -407,3 +651,15 @@ end Agd.LinkIP
 #print axioms Agd.LinkIP.served_keeps_nil
 #print axioms Agd.LinkIP.proxy_strips
 #print axioms Agd.LinkIP.splitHost_hostport
+#print axioms Agd.LinkIP.not_api_answered_locally
+#print axioms Agd.LinkIP.robots_not_api
+#print axioms Agd.LinkIP.backend_iff_api
+#print axioms Agd.LinkIP.bad_peer_not_forwarded
+#print axioms Agd.LinkIP.client_cannot_choose_address
+#print axioms Agd.LinkIP.splitHost_bracketed
+#print axioms Agd.LinkIP.client_ip_is_peer_ip
+#print axioms Agd.LinkIP.any_isDot_append_slash
+#print axioms Agd.LinkIP.stripEnd_clean
+#print axioms Agd.LinkIP.backend_path_normalised
+#print axioms Agd.LinkIP.wire_segments_dot_free
+#print axioms Agd.LinkIP.wire_forwards_only_api_with_real_address
